@@ -15,7 +15,8 @@ Driver for C08.  Protocol (one case):
 then operations, each followed by the implementation's `impl …` line:
   policy|wd <halt|safe|restart>, safe <n> (<addr> <value>)*, dbg <addr> <value>, adv <dt>,
   force <addr> <value>, release <addr>,
-  runloop <interval ns> <watchdog enabled> <cycle exceeds the timeout> <iterations completed>   (last operation: the
+  runloop <interval ns> <watchdog enabled> <cycle exceeds the timeout> <iterations completed> <post-cycle simulation
+      step fails in every iteration>   (last operation: the
       runtime is handed to a ResourceRunner thread; answer `state=<Faulted|Stopped> err=.. ev=..`)
   cycle, watchdog, simfault, restart <warm|cold>, clear
 <addr> = <I|Q|M>:<X|B|W|D|L>:<byte>:<bit>:<wildcard 0|1>:<path a.b.c|->
@@ -230,14 +231,14 @@ def stepLine (st : St) (line : String) : St × Option String :=
     match dt.toInt? with
     | some dt => doOp st (.advance dt)
     | none => (st, some "bad-op")
-  | ["runloop", iv, en, ov, n] =>
-    match iv.toInt?, parseBool? en, parseBool? ov, n.toNat?, st.cfg, st.rs with
-    | some iv, some en, some ov, some n, some cfg, some rs =>
-      let r := runnerLoop (Conc.sem cfg) iv en ov (fun _ => none) n rs 0
+  | ["runloop", iv, en, ov, n, po] =>
+    match iv.toInt?, parseBool? en, parseBool? ov, n.toNat?, parseBool? po, st.cfg, st.rs with
+    | some iv, some en, some ov, some n, some po, some cfg, some rs =>
+      let r := runnerLoop (Conc.sem cfg) iv en ov (fun _ => if po then some .invalidIoAddress else none) n rs 0
       let state := match r.err with | some _ => "Faulted" | none => "Stopped"
       ({ st with rs := some r.st },
         some s!"m state={state} err={match r.err with | some e => showErr e | none => "-"} ev={dash (r.evs.filterMap showEv)}")
-    | _, _, _, _, _, _ => (st, some "bad-op")
+    | _, _, _, _, _, _, _ => (st, some "bad-op")
   | ["cycle"] => doOp st .cycle
   | ["watchdog"] => doOp st .watchdog
   | ["simfault"] => doOp st .simFault
